@@ -247,7 +247,9 @@ class SigmaFilter(SigmaRuleBase):
         # Each rule gets its own copy: the detections are transformed by processing pipelines
         # per rule, sharing them between rules would apply transformations multiple times.
         for original_cond_name, condition in self.filter.detections.items():
-            rule.detection.detections[prefix + "_" + original_cond_name] = copy.deepcopy(condition)
+            rule.detection.detections[prefix + "_" + str(original_cond_name)] = copy.deepcopy(
+                condition
+            )  # str(): a YAML key may be a number
 
         # Rewrite the filter condition string so that every identifier/pattern token is
         # prefixed.  This handles:
